@@ -45,6 +45,14 @@ PROPS = {
         "explanation": "coalesce is proved to preserve sem3 for every document (three-valued equality, so also under negation), to remove every identifier (so clearing the identifier table is sound) and never to hit its expect()",
         "assumptions": ["shake, rewrite and matrix passes are not yet under contract (see DESIGN.md C01)"],
     },
+    "C09": {
+        "units": {"solver": ["solve_expression"]},
+        "kani": [{"name": "c09", "module": "c09_table.rs", "slice_file": "solver.rs",
+                  "slices": {"@TABLE@": "let res = match (x, *op, y) {"},
+                  "harnesses": ["c09_table_sound", "c09_trichotomy", "c09_cast_facts"], "decode": "cmp"}],
+        "explanation": "Verus: the comparison arm of solve_expression equals sem_cmp, whose integer relation is stated over the mathematical integers (no wrap) and whose cast table is the documented one; Kani (complete: loop-free, full i64/u64/f64 domain) on the comparison table sliced verbatim from the function: true only when the relation holds, exact IEEE semantics for doubles, trichotomy and unions for same-kind non-NaN operands",
+        "assumptions": ["f64 operations are uninterpreted in Verus (deterministic functions); bit-precise facts come from the Kani slice", "numeric strings: str::parse is uninterpreted"],
+    },
     "C06": {
         "units": {"solver": SOLVER_CORE},
         "explanation": "and/or/not/all/of arms of the real solve_expression are proved equal to the truth-table spec (and3/or3/not3/of3 over sems) for groups of any length",
